@@ -32,6 +32,13 @@ _HERE = os.path.dirname(os.path.abspath(__file__))
 _BASELINE = None
 
 
+def _baseline_small_calls() -> set:
+    p = os.path.join(os.path.dirname(os.path.abspath(__file__)), "baseline_small_calls.txt")
+    if not os.path.exists(p):
+        return set()
+    return {l.strip() for l in open(p) if l.strip() and not l.startswith("#")}
+
+
 def baseline() -> set:
     global _BASELINE
     if _BASELINE is None:
@@ -267,9 +274,35 @@ class Inliner:
                 self.cls_new.setdefault(cname, {})[name] = (f, not static)
         self.counter = 0
         self.sites = {}
+        # small straight-line methods of the baseline (a few assignments / calls, no control flow, no result): a NEW statement
+        # `self.m(..)` in a method of the same class is read as m's body (`book()` updating the ledger through the existing
+        # `markSlotPartiallyUsed`); the call sites the baseline tree already has are left alone (baseline_small_calls.txt)
+        self.small = {}
+        self.small_sites = _baseline_small_calls()
+        for qual, f, cname in _defs(tree):
+            if cname is None or f.decorator_list or f.name.startswith("__") or f.name in self.cls_new.get(cname, {}):
+                continue
+            a = f.args
+            if a.vararg or a.kwarg:
+                continue
+            body = f.body[1:] if f.body and isinstance(f.body[0], ast.Expr) and isinstance(f.body[0].value, ast.Constant) else f.body
+            if 1 <= len(body) <= 3 and all(isinstance(st, (ast.Assign, ast.AugAssign, ast.AnnAssign, ast.Expr)) for st in body) \
+                    and not any(isinstance(x, (ast.Yield, ast.YieldFrom, ast.Await, ast.Lambda)) for st in body for x in ast.walk(st)):
+                self.small.setdefault(cname, {})[f.name] = (f, True)
 
     def any_new(self):
-        return bool(self.mod_new or self.cls_new)
+        return bool(self.mod_new or self.cls_new or self.small)
+
+    def resolve_small(self, st, cname, owner):
+        """a new statement `self.m(..)` whose m is a small straight-line method of the same class"""
+        if cname is None or not (isinstance(st, ast.Expr) and isinstance(st.value, ast.Call)):
+            return None
+        fx = st.value.func
+        if isinstance(fx, ast.Attribute) and isinstance(fx.value, ast.Name) and fx.value.id == "self" and fx.attr in self.small.get(cname, {}):
+            if f"{self.rel}::{cname}.{owner.name}->{fx.attr}" in self.small_sites or fx.attr == owner.name:
+                return None
+            return self.small[cname][fx.attr]
+        return None
 
     def resolve(self, call, cname):
         fx = call.func
@@ -546,6 +579,14 @@ class Inliner:
                         stmts[i:i + 1] = ex[0] or [ast.Pass(lineno=st.lineno, col_offset=0)]
                         changed = True
                         continue
+            rs_ = self.resolve_small(st, cname, owner)
+            if rs_ is not None and self.sites.get(("small", id(rs_[0])), 0) < MAX_SITES:
+                ex = self.expand(st.value, rs_[0], rs_[1], owner=owner, stmt=st)
+                if ex is not None and ex[1] is None:
+                    self.sites[("small", id(rs_[0]))] = self.sites.get(("small", id(rs_[0])), 0) + 1
+                    stmts[i:i + 1] = ex[0] or [ast.Pass(lineno=st.lineno, col_offset=0)]
+                    changed = True
+                    continue
             for call in _hoistable_calls(st):
                 r = self.resolve(call, cname)
                 if r is None:
